@@ -712,6 +712,8 @@ class Engine(object):
         return res
 
     def contains(self, st, node, container, item):
+        if isinstance(container, LitSet) and container.conds is not None:
+            return [(st, b_or(*[b_and(container.cond(i), equal(item, x)) for i, x in enumerate(container.items)]) if container.items else False)]
         if isinstance(container, (tuple, ListV, LitSet)):
             items = container if isinstance(container, tuple) else container.items
             return [(st, b_or(*[equal(item, x) for x in items]) if items else False)]
@@ -1145,6 +1147,40 @@ class Engine(object):
 
     def comprehension(self, node, st, kind):
         saved = dict(st.env)
+        if kind == "set" and len(node.generators) == 1 and self._simple(node.generators[0].ifs + [node.elt]) or \
+                (kind == "condset" and len(node.generators) == 1):
+            g = node.generators[0]
+            r = self.ev(g.iter, st)
+            if len(r) == 1 and not isinstance(r[0][1], Raised):
+                items = self.static_items(r[0][1])
+                if items is not None:
+                    vals, conds, ok = [], [], True
+                    s1 = r[0][0]
+                    for it in items:
+                        s2 = self.assign(g.target, it, s1)
+                        c = True
+                        for cnode in g.ifs:
+                            rc = self.ev(cnode, s2)
+                            if len(rc) != 1 or isinstance(rc[0][1], Raised):
+                                ok = False
+                                break
+                            c = b_and(c, rc[0][1])
+                        if not ok:
+                            break
+                        re_ = self.ev(node.elt, s2)
+                        if len(re_) != 1 or isinstance(re_[0][1], Raised):
+                            ok = False
+                            break
+                        if c is False:
+                            continue
+                        vals.append(re_[0][1])
+                        conds.append(c)
+                    if ok:
+                        return [(s1, LitSet(vals, conds if any(c is not True for c in conds) else None))]
+            if kind == "condset":
+                kind = "list"
+        elif kind == "condset":
+            kind = "list"
 
         def rec(gi, s, acc):
             # -> list of (state, acc | Raised)
@@ -1220,6 +1256,8 @@ class Engine(object):
         if isinstance(v, tuple):
             return list(v)
         if isinstance(v, LitSet):
+            if v.conds is not None:
+                return None
             return list(v.items)
         if isinstance(v, ListV):
             return list(v.items)
@@ -1231,12 +1269,24 @@ class Engine(object):
             return None
         if isinstance(v, ConstDict):
             return [k for k, _ in v.entries]
+        if isinstance(v, ClassRef) and any(isinstance(b, ast.Name) and b.id in ("IntEnum", "Enum") for b in v.node.bases):
+            return [int(m) for m in getattr(v.mod.pymod, v.node.name)]
+        if isinstance(v, PyObj) and isinstance(v.obj, type):
+            import enum
+            if issubclass(v.obj, enum.IntEnum):
+                return [int(m) for m in v.obj]
         if isinstance(v, SeqV) and isinstance(v.length, int) and v.length <= self.MAX_UNROLL:
             return [seqs.seq_get(v, i)[0] for i in range(v.length)]
         return None
 
     # ---------------------------------------------------------------- calls
     def ev_Call(self, node, st):
+        if (isinstance(node.func, ast.Name) and node.func.id in ("set", "frozenset") and len(node.args) == 1
+                and isinstance(node.args[0], (ast.GeneratorExp, ast.ListComp)) and not node.keywords
+                and node.func.id not in st.env):
+            r = self.comprehension(node.args[0], st, "condset")
+            if len(r) == 1 and isinstance(r[0][1], LitSet):
+                return r
         out = []
         for s, fv in self.ev(node.func, st):
             if isinstance(fv, Raised):
